@@ -190,6 +190,10 @@ func runTTHCase(raw json.RawMessage, w *TraceWriter) {
 	}
 	seeds := c.seeds()
 	ctx := context.Background()
+	if c.Mode == "util" {
+		runTTHUtil(&c, w, seeds)
+		return
+	}
 	if c.Mode == "dec" {
 		var in []byte
 		if c.Hex != "" {
@@ -388,6 +392,21 @@ func randTTH(rng *rand.Rand, big bool) TTHCase {
 	}
 	c.Payload = []int{0, 0, 1, 5, 100, 4096, 10000}[rng.Intn(7)]
 	return c
+}
+
+// tthUtilCases: the exported byte helpers on their own (value lengths across 0..70000, numbers across the ranges)
+func tthUtilCases(c *Ctx) []json.RawMessage {
+	var out []json.RawMessage
+	nums := []int{0, 1, 127, 128, 255, 256, 32767, 32768, 65535, 65536, 2147483647, -1, -2147483648, 16909060}
+	for i, n := range []int{0, 1, 2, 3, 100, 255, 256, 257, 4095, 4096, 4097, 65534, 65535, 65536, 70000} {
+		s := StrSpec{Len: n, Seed: 30 + i}
+		out = append(out, mustJSON(TTHCase{Mode: "util", ACL: &s, Seq: nums[i%len(nums)]}))
+	}
+	for _, x := range nums {
+		s := StrSpec{Lit: []int{'a', 0, 255}}
+		out = append(out, mustJSON(TTHCase{Mode: "util", ACL: &s, Seq: x}))
+	}
+	return out
 }
 
 func tthEncCases(c *Ctx) []json.RawMessage {
@@ -595,7 +614,7 @@ func tthHostileCases(c *Ctx) []json.RawMessage {
 func checkC06(c *Ctx) {
 	c.rule = "MC: every admissible frame of a bounded parameter domain (entry orders, ACL token, every padding residue) parses back to its parameters and has the computed info size; all 65536 flags. TRACE: parameter sets (all flags (quick: stride 97), every padding residue, info sizes 65515..65540 stepping by 1 around the 65536 limit, 64KiB-scale values, unsupported protocol ids, random maps with arbitrary bytes and the ACL key) through EncodeToBytes and Encode over a stream-backed writer (tth_enc: error iff InfoSize > 65536, layout, size field, written = header length, Parse(frame) = param) and then DecodeFromBytes / Decode over bytes- and stream-backed readers under every fragmentation with a pattern payload behind the header (tth_dec: params, HeaderLen, PayloadLen arithmetic, ReadLen, IsTTHeader/IsStreaming)."
 	c.MC("MC_TTHeader.tla", "MC_TTHeader.cfg", 4)
-	c.TraceCheck(famTTHC06, tthEncCases(c))
+	c.TraceCheck(famTTHC06, append(tthEncCases(c), tthUtilCases(c)...))
 	// streams of 1..5 framed messages (header + message envelope + Base/BaseResp) read back from a fragmenting
 	// reader: every payload must be delimited exactly by total + 4 - header length
 	c.TraceCheck(famFraming, framingCases(c))
@@ -728,4 +747,71 @@ func framingCases(c *Ctx) []json.RawMessage {
 		out = append(out, mustJSON(fc))
 	}
 	return out
+}
+
+// runTTHUtil: the exported byte helpers of protocol/ttheader/utils.go (WriteString, WriteString2BLen, WriteByte /
+// WriteUint16 / WriteUint32, ReadString2BLen, Bytes2Uint8 / Bytes2Uint16) on their own.
+func runTTHUtil(c *TTHCase, w *TraceWriter, seeds []int) {
+	val := []byte{}
+	if c.ACL != nil {
+		val = c.ACL.Bytes()
+	}
+	wr := func(fn string, f func(out bufiox.Writer) (int, error)) {
+		sink := &recSink{}
+		bw := bufiox.NewDefaultWriter(sink)
+		n, err := f(bw)
+		if err == nil {
+			err = bw.Flush()
+		}
+		var all []byte
+		for _, p := range sink.payloads {
+			all = append(all, p...)
+		}
+		w.Ev("tth_util", "fn", fn, "val", projectBytes(val, seeds), "num", c.Seq, "off", 0, "out", projectBytes(all, seeds), "ret", n, "ok", err == nil)
+		// and over a writer that has room for all but the last byte
+		if len(all) > 0 {
+			bwr := &budgetWriter{budget: len(all) - 1, fail: errBudget}
+			_, err2 := f(bwr)
+			w.Ev("tth_util", "fn", fn+"-short", "val", projectBytes(val, seeds), "num", c.Seq, "off", 0, "out", Raw("[]"), "ret", 0, "ok", err2 == nil)
+		}
+	}
+	if len(val) < 65536 {
+		wr("ws2", func(o bufiox.Writer) (int, error) { return ttheader.WriteString2BLen(string(val), o) })
+	}
+	wr("ws4", func(o bufiox.Writer) (int, error) { return ttheader.WriteString(string(val), o) })
+	wr("wb", func(o bufiox.Writer) (int, error) { return 1, ttheader.WriteByte(byte(c.Seq), o) })
+	wr("w16", func(o bufiox.Writer) (int, error) { return 2, ttheader.WriteUint16(uint16(c.Seq), o) })
+	wr("w32", func(o bufiox.Writer) (int, error) { return 4, ttheader.WriteUint32(uint32(c.Seq), o) })
+	// readers at every offset of (prefix ++ 2-byte length ++ val ++ suffix), with honest, short and long inputs
+	if len(val) < 65536 {
+		full := append([]byte{0xEE, 0xEF}, byte(len(val)>>8), byte(len(val)))
+		full = append(full, val...)
+		full = append(full, 0x11, 0x22, 0x33)
+		for _, in := range [][]byte{full, full[:len(full)-3], full[:len(full)-4], full[:3], full[:2], {}} {
+			for _, off := range []int{0, 1, 2, 3, len(in) - 2, len(in) - 1, len(in)} {
+				if off < 0 || off > len(in) {
+					continue
+				}
+				var str string
+				var n int
+				var err error
+				var u8 uint8
+				var u16 uint16
+				var e8, e16 error
+				panicked := false
+				func() {
+					defer func() {
+						if p := recover(); p != nil {
+							panicked = true
+						}
+					}()
+					str, n, err = ttheader.ReadString2BLen(in, off)
+					u8, e8 = ttheader.Bytes2Uint8(in, off)
+					u16, e16 = ttheader.Bytes2Uint16(in, off)
+				}()
+				w.Ev("tth_rutil", "in", projectBytes(in, seeds), "off", off, "panic", panicked, "sok", err == nil, "s", projectBytes([]byte(str), seeds), "n", n,
+					"u8ok", e8 == nil, "u8", int(u8), "u16ok", e16 == nil, "u16", int(u16))
+			}
+		}
+	}
 }
